@@ -94,14 +94,14 @@ Theorem C12_get_frag_iff :
 Proof. exact get_frag_iff. Qed.
 Print Assumptions C12_get_frag_iff.
 
-Theorem C12_undefined_spread_panics_refuted :
+Theorem C12_guard_necessary :
   exists defs f,
     In (DFrag f) defs
     /\ (forall o n, In (DOp o) defs -> ~ reach (get_frag defs) (op_sel o) n)
     /\ runtime_defs defs (DFrag f) = Panic msg_fragment_not_found
     /\ document_runtime_texts (mkOpDoc pos0 defs) = Panic msg_fragment_not_found.
 Proof. exact undefined_spread_panics. Qed.
-Print Assumptions C12_undefined_spread_panics_refuted.
+Print Assumptions C12_guard_necessary.
 
 Theorem C12_parse_ser :
   forall j, no_num j = true -> jparse (ser j) = Some j.
@@ -150,3 +150,25 @@ Theorem C12_document_texts_total :
 Proof. exact document_texts_total. Qed.
 Print Assumptions C12_document_texts_total.
 
+Theorem C12_accepted_document_denotes :
+  forall (check : list execdef -> bool),
+  (forall defs, check defs = true -> spreads_defined_b defs = true) ->
+  forall d,
+    check (od_defs d) = true -> forallb wf_def (od_defs d) = true ->
+    (exists ts, document_runtime_texts d = Ok ts /\ length ts = length (od_defs d))
+    /\ (forall o, In (DOp o) (od_defs d) ->
+         exists t names fs,
+           runtime_text (od_defs d) (DOp o) = Ok t
+           /\ read_document t = Some (erase_op o :: map erase_frag fs)
+           /\ Forall2 (fun n f => get_frag (od_defs d) n = Some f) names fs
+           /\ NoDup names
+           /\ forall n, In n names <-> reach (get_frag (od_defs d)) (op_sel o) n)
+    /\ (forall f, In (DFrag f) (od_defs d) ->
+         exists t names fs,
+           runtime_text (od_defs d) (DFrag f) = Ok t
+           /\ read_document t = Some (erase_frag f :: map erase_frag fs)
+           /\ Forall2 (fun n g => get_frag (od_defs d) n = Some g) names fs
+           /\ NoDup names
+           /\ forall n, In n names <-> (reach (get_frag (od_defs d)) (fr_sel f) n /\ n <> iname (fr_name f))).
+Proof. exact accepted_document_denotes. Qed.
+Print Assumptions C12_accepted_document_denotes.
